@@ -8,12 +8,12 @@ CONSTANTS
   MaxTag = 0
   M = 16
   InitEp = {0}
-  MaxEp = 6
+  MaxEp = 7
   MaxOps = 3
   MaxDepth = 3
   ExpAge = 3
   CasAge = 3
-  OpsEnabled = {"drop","upgrade","clone","collect"}
+  OpsEnabled = {"drop","dropweak","wclone","wsnap","pin","collect","upgrade"}
   Scen = "weak"
   Fix = {"pin", "inc", "mark", "stamp", "wmany", "newmany0"}
   Mut = {}
